@@ -7,9 +7,13 @@ import (
 	"fmt"
 	"os"
 
+	mhubtypes "github.com/MinterTeam/mhub2/module/x/mhub2/types"
+
 	"verifharness/runner"
 	"verifharness/world"
 )
+
+func mhubChain(c string) mhubtypes.ChainID { return mhubtypes.ChainID(c) }
 
 func main() {
 	if len(os.Args) < 2 {
@@ -19,6 +23,14 @@ func main() {
 	switch os.Args[1] {
 	case "run":
 		cmdRun(os.Args[2:])
+	case "claimid":
+		cmdClaimId(os.Args[2:])
+	case "connector":
+		world.SetAddrCfg()
+		cmdConnector(os.Args[2:])
+	case "command":
+		world.SetAddrCfg()
+		cmdCommand(os.Args[2:])
 	default:
 		fmt.Fprintln(os.Stderr, "unknown subcommand", os.Args[1])
 		os.Exit(2)
